@@ -72,6 +72,28 @@ func TestVF_C18_Messages(t *testing.T) {
 			fail("re-marshalling-is-not-a-fixpoint", seed.name)
 			return
 		}
+		// decoding into a destination that already holds an earlier message replaces its content, as for
+		// every other slice or struct: the re-read message means what was sent, not more
+		{
+			var reusedL ProofList
+			var reusedM IssueCommitmentMessage
+			if err := decode(seed.doc, &reusedL, &reusedM); err == nil {
+				if err := decode(re1, &reusedL, &reusedM); err != nil {
+					fail("re-marshalled-message-does-not-decode:into-used-destination", err.Error())
+					return
+				}
+				var re3 []byte
+				if seed.isMsg {
+					re3, _ = json.Marshal(&reusedM)
+				} else {
+					re3, _ = json.Marshal(reusedL)
+				}
+				if !bytes.Equal(re1, re3) {
+					fail("message-decoded-into-used-destination-differs", seed.name)
+					return
+				}
+			}
+		}
 		okOrig := second.Verify(seed.pks, seed.ctx, seed.nonce, seed.issig, nil)
 		if !okOrig && !anyC11Ambiguous(second) {
 			fail("re-read-proof-list-rejected", seed.name)
